@@ -14,7 +14,8 @@ RULE = (
     "GetDefaultCategory, GetInfo, FixedArray.IndexAsScalar/ChangingIndex, Array.FromScalars(unit=), "
     "AddCategory(valid_units=/default_unit= incl. the derived-default-unit path) on a scratch database; x Hypothesis-"
     "generated values. Oracle: the result built with the legacy spelling == the one built with the current spelling "
-    "(objects ==, numbers identical, registry entries identical). Plus FixUnitIfIsLegacy(legacy) == current, idempotent on "
+    "(objects ==, numbers identical, registry entries identical); where the current spelling is rejected (cross-type "
+    "conversions and constructions with a unit of another quantity type) the legacy spelling is rejected too. Plus FixUnitIfIsLegacy(legacy) == current, idempotent on "
     "all 62 + 1548 symbols, no current symbol rewritten, no legacy spelling registered. Every cell is non-trivial "
     "(an alias resolution); key = (spelling, API entry)."
 )
@@ -141,6 +142,24 @@ class Checker:
             ("db.CheckCategoryUnit via Scalar", lambda s: Scalar(c, x, s).GetUnit()),
             ("repr(Scalar)", lambda s: repr(Scalar(x, s, c))),
         ]
+        # the rejection path: a unit of another quantity type converted to / built with this unit is rejected, whichever
+        # spelling is used
+        w2, c2 = ("m", "length") if qt != "length" else ("s", "time")
+        qt2 = c2
+        E += [
+            ("cross-type db.Convert(target)", lambda s: db.Convert(qt2, w2, s, x)),
+            ("cross-type db.Convert(source)", lambda s: db.Convert(qt2, s, w2, x)),
+            ("cross-type db.Convert(ndarray)", lambda s: db.Convert(qt2, w2, s, nd())),
+            ("cross-type db.Convert(tuple)", lambda s: db.Convert(c2, w2, s, (x, y))),
+            ("cross-type Scalar.GetValue", lambda s: Scalar(x, w2).GetValue(s)),
+            ("cross-type Array.GetValues", lambda s: Array([x, y], w2).GetValues(s)),
+            ("cross-type Array.GetValues(ndarray)", lambda s: Array(nd(), w2).GetValues(s)),
+            ("cross-type FractionScalar.GetValue", lambda s: FractionScalar(fv(), w2).GetValue(s)),
+            ("cross-type Scalar(v,u,c)", lambda s: Scalar(x, s, c2)),
+            ("cross-type ObtainQuantity", lambda s: ObtainQuantity(s, c2)),
+            ("cross-type db.GetInfo", lambda s: db.GetInfo(qt2, s).unit),
+            ("cross-type db.GetUnitName", lambda s: db.GetUnitName(qt2, s)),
+        ]
         return E
 
     def check_spelling(self, l, x, y, wi):
@@ -162,7 +181,13 @@ class Checker:
                 except Exception as e:
                     if core.tree_frame(e) is None:
                         raise
-                    ctx.cls("entry_raises_with_current_spelling_too")
+                    # the current spelling is rejected here: an exact alias is rejected too
+                    try:
+                        got = fn(l)
+                    except Exception:
+                        ctx.cls("entry_rejected_with_both_spellings")
+                        continue
+                    ctx.record("legacy_spelling_accepted_where_current_is_rejected:%s" % name, case, "%s: the current spelling %r raises %s, the legacy spelling %r returns %r" % (name, u, type(e).__name__, l, got))
                     continue
                 try:
                     got = fn(l)
